@@ -101,17 +101,23 @@ def build(cspecs, ccons, discrete_factors, level_index):
         made[cs["name"]] = f
         out.append(f)
     cons = []
+
+    def predicate(cc):
+        # the library checks that the predicate takes exactly as many parameters as there are factors
+        thr, op = cc["thr"], cc["op"]
+        if op == "lt":
+            return lambda a: a < thr
+        if op == "gt":
+            return lambda a: a > thr
+        if op == "gtpair":
+            return lambda a, b: a > b - thr          # NOT symmetric in its arguments
+        return lambda a, b: a + b < thr
+    # documented as sweetpea.ContinuousConstraint but not exported from the package at the pinned commit
+    CC = getattr(sp, "ContinuousConstraint", None)
+    if CC is None:
+        from sweetpea._internal.constraint import ContinuousConstraint as CC
     for cc in ccons:
-        fs = [made[n] for n in cc["factors"]]
-        thr = cc["thr"]
-        if cc["op"] == "lt":
-            cons.append(sp.ContinuousConstraint(fs, (lambda a, thr=thr: a < thr)))
-        elif cc["op"] == "gt":
-            cons.append(sp.ContinuousConstraint(fs, (lambda a, thr=thr: a > thr)))
-        elif cc["op"] == "gtpair":
-            cons.append(sp.ContinuousConstraint(fs, (lambda a, b, thr=thr: a > b - thr)))       # NOT symmetric in its arguments
-        else:
-            cons.append(sp.ContinuousConstraint(fs, (lambda a, b, thr=thr: a + b < thr)))
+        cons.append(CC([made[n] for n in cc["factors"]], predicate(cc)))
     return out, cons
 
 
